@@ -91,6 +91,39 @@ def _fresh_like(I, st, name, old, kind):
   raise Unsupported("havoc kind %r" % (kind,))
 
 
+def havoc_ghost(I, st):
+  """ghost state at a loop cut (2026-09-25, soundness): the body may advance ghost counters (callee contracts do), so at the
+  head of an ARBITRARY iteration they are arbitrary too - scalar ghosts become fresh values (the invariant constrains them
+  through v.g_<name>).  Returns a snapshot of the remaining (non-scalar) ghosts: a body that changes one of those is out of
+  reach of the cut (checked by ghost_unchanged)."""
+  snap = {}
+  for gk, gv in list(st.ghost.items()):
+    if not isinstance(gk, str) or gk.startswith("$"):
+      continue
+    if isinstance(gv, bool) or is_symbool(gv):
+      st.ghost[gk] = fresh_bool("g_" + gk)
+    elif is_intlike(gv):
+      st.ghost[gk] = fresh_int("g_" + gk)
+    elif is_symreal(gv) or isinstance(gv, float):
+      st.ghost[gk] = fresh_real("g_" + gk)
+    else:
+      snap[gk] = gv
+  return snap
+
+
+def ghost_unchanged(st, snap, where):
+  for gk, gv in snap.items():
+    now = st.ghost.get(gk)
+    same = now is gv
+    if not same:
+      try:
+        same = bool(now == gv) and type(now) is type(gv)
+      except Exception:
+        same = False
+    if not same:
+      raise Unsupported("the body of the loop at %s changes the ghost value %r, which a loop cut cannot havoc" % (where, gk))
+
+
 def run_loop(I, node, spec, st, ctx, k):
   from .interp import Ctx
   where = I.where(ctx, node)
@@ -121,6 +154,7 @@ def run_loop(I, node, spec, st, ctx, k):
         if old is None and nm not in fr1:
           continue
         fr1[nm] = _fresh_like(I, st1b, nm, old, kind)
+      gsnap = havoc_ghost(I, st1b)
       # 3. assume invariant
       def assumed(st2, inv1):
         def with_t2(st2b, t2):
@@ -133,6 +167,7 @@ def run_loop(I, node, spec, st, ctx, k):
               def got_truth(st5, tt):
                 def body(st6):
                   def end_iter(st7):
+                    ghost_unchanged(st7, gsnap, where)
                     def chk(st8, inv2):
                       def with_t3(st8b, t3):
                         I.check_obligation(st8b, t3, "loop.preserve:" + lname, kind="loop")
@@ -260,6 +295,7 @@ def run_for(I, node, spec, st, ctx, k):
           if any(isinstance(x, ast.Name) and x.id == nm for x in ast.walk(node.target)):
             continue
           fr1[nm] = _fresh_like(I, st1b, nm, fr1[nm], kind)
+        gsnap = havoc_ghost(I, st1b)
         i = fresh_int("_i")
         st1b.add(z3.And(i >= 0, i <= n))
         def assumed(st2, inv1):
@@ -276,6 +312,7 @@ def run_for(I, node, spec, st, ctx, k):
                 st3 = ax[0][0]
                 st3.add(ax[0][1] if is_sym(ax[0][1]) else z3.BoolVal(bool(ax[0][1])))
               def end_iter(st7):
+                ghost_unchanged(st7, gsnap, where)
                 def chk(st8, inv2):
                   def with_t3(st8b, t3):
                     I.check_obligation(st8b, t3, "loop.preserve:" + lname, kind="loop")
